@@ -29,6 +29,7 @@ var configs = []string{
 	"mem-root", "mem-child", "mem-child3", "disk-root", "disk-child", "disk-child3",
 	"enc-mem-child", "enc-disk-child", "ro-child", "ro-child3", "subfs", "subfs-child3",
 	"cache-child", "cache-root-over-child", "cache-child3",
+	"subfs-child4", "cache-child4",
 }
 
 // fixture: U (underlying root) holds
@@ -45,6 +46,9 @@ type fixture struct {
 	cache    *fscache.Cache
 	tmp      string // disk configs: temp dir; host files live next to base
 	hostRoot string // directory whose content outside the jail is hashed (disk)
+	// views created AFTER the view under test, from each view on the way to it, for the outside
+	// directory "x" next to it: siblings are separate views and stay alive during the test
+	later []filesystem.Filespace
 }
 
 const (
@@ -164,13 +168,17 @@ func newFixture(kind, tmp string) (*fixture, error) {
 		f.jailPath = deep
 	case "cache-root-over-child":
 		f.jailPath = "jail"
+	case "subfs-child4", "cache-child4":
+		f.jailPath = deep + "/j4"
 	}
 	if err = f.writeAll(); err != nil {
 		return nil, fmt.Errorf("fixture: %v", err)
 	}
+	var onTheWay []filesystem.Filespace
 	nest := func(start filesystem.Filespace, p string) (filesystem.Filespace, error) {
 		cur := start
 		for _, seg := range strings.Split(p, "/") {
+			onTheWay = append(onTheWay, cur)
 			if cur, err = cur.Filespace(seg); err != nil {
 				return nil, err
 			}
@@ -188,6 +196,12 @@ func newFixture(kind, tmp string) (*fixture, error) {
 		f.J = fshelper.NewSubFS(f.U, "jail")
 	case "subfs-child3":
 		f.J, err = nest(fshelper.NewSubFS(f.U, "jail"), "j2/j3")
+	case "subfs-child4":
+		f.J, err = nest(fshelper.NewSubFS(f.U, "jail/j2"), "j3/j4")
+	case "cache-child4":
+		if f.cache, err = fscache.NewMemCache(f.U); err == nil {
+			f.J, err = nest(f.cache, f.jailPath)
+		}
 	case "cache-child", "cache-child3":
 		if f.cache, err = fscache.NewMemCache(f.U); err == nil {
 			f.J, err = nest(f.cache, f.jailPath)
@@ -202,6 +216,11 @@ func newFixture(kind, tmp string) (*fixture, error) {
 	}
 	if err != nil {
 		return nil, fmt.Errorf("view: %v", err)
+	}
+	for _, v := range onTheWay {
+		if sib, e := v.Filespace("x"); e == nil && sib != nil {
+			f.later = append(f.later, sib)
+		}
 	}
 	return f, nil
 }
@@ -669,6 +688,7 @@ func plan(tier string, seed int64) []sup.Batch {
 		bs = append(bs, sup.Chunk("rnd-"+k, "paths", nrand, nrand, 1, map[string]any{"config": k, "maxseg": maxSeg, "random": 1})...)
 	}
 	bs = append(bs, sup.Batch{Name: "symlink", Kind: "symlink", From: 0, To: 8, Procs: 1})
+	bs = append(bs, sup.Batch{Name: "relroot", Kind: "relroot", From: 0, To: 12, Procs: 1})
 	return bs
 }
 
@@ -676,7 +696,7 @@ func main() {
 	sup.Main(sup.Prop{
 		ID:    "C03",
 		Level: "exploration",
-		Rule:  "for each of 15 view configurations (memory/disk root and child, depth-3 views, encrypted, read-only, sub-path, cache child/root/depth-3) every path of ≤ N segments over {x, jail, ., .., \"\"} with and without leading '/' (N=3 quick, 5 thorough; random longer ones beyond) is given to all 16 operations (copy operations: hostile source, hostile destination, both); after every call the tree outside the view root (walked through the underlying root, host directory for disk, after Commit for caches) must be byte-identical, no outside token may be returned, no outside-only name listed, no positive answer for an escaping path unless the clamped path explains it, no panic; symlink: disk views whose tree holds a relative link that resolves inside the view – its directory is copied to another depth through the view and the copy is read, written, queried and removed: nothing outside is delivered or changed. distinct = (configuration, path block); non-trivial = block contains escaping paths",
+		Rule:  "for each of 17 view configurations (memory/disk root and child, depth-3 views, encrypted, read-only, sub-path, cache child/root/depth-3, sub-path and cache views of depth 4; after the view under test is built, sibling views for the outside directory next to it are created from every view on the way and kept alive) every path of ≤ N segments over {x, jail, ., .., \"\"} with and without leading '/' (N=3 quick, 5 thorough; random longer ones beyond) is given to all 16 operations (copy operations: hostile source, hostile destination, both); after every call the tree outside the view root (walked through the underlying root, host directory for disk, after Commit for caches) must be byte-identical, no outside token may be returned, no outside-only name listed, no positive answer for an escaping path unless the clamped path explains it, no panic; symlink: disk views whose tree holds a relative link that resolves inside the view – its directory is copied to another depth through the view and the copy is read, written, queried and removed: nothing outside is delivered or changed; relroot: disk views created from a relative root path, used (directly and through a child view) after the process changed its working directory to a directory with the same names: nothing of the new working directory is delivered or changed. distinct = (configuration, path block); non-trivial = block contains escaping paths",
 		Assumptions: []string{
 			"a path that would climb above the root may be rejected or resolved inside the root (clamped); both are accepted",
 			"removing or replacing the view's own root directory through the view is not counted as reaching outside (the statement speaks of what is not under the root)",
@@ -685,6 +705,10 @@ func main() {
 		Run: func(c *sup.Child, b sup.Batch) {
 			if b.Kind == "symlink" {
 				runSymlink(c, b)
+				return
+			}
+			if b.Kind == "relroot" {
+				runRelRoot(c, b)
 				return
 			}
 			runPaths(c, b)
@@ -702,9 +726,9 @@ func main() {
 		},
 		Exhaustive: func(tier string) string {
 			if tier == "thorough" {
-				return "all 7810 paths of ≤5 segments over {x,jail,.,..,\"\"} (± leading '/') × all operations × 15 view configurations"
+				return "all 7810 paths of ≤5 segments over {x,jail,.,..,\"\"} (± leading '/') × all operations × 17 view configurations"
 			}
-			return "all 310 paths of ≤3 segments over {x,jail,.,..,\"\"} (± leading '/') × all operations × 15 view configurations"
+			return "all 310 paths of ≤3 segments over {x,jail,.,..,\"\"} (± leading '/') × all operations × 17 view configurations"
 		},
 	})
 }
